@@ -1573,6 +1573,7 @@ request_parse(u8 *packet, int length, struct evdns_server_port *port,
 		j += 2 /* type */ + 2 /* class */ + 4 /* ttl */; \
 		GET16(rdlen); \
 		j += rdlen; \
+		if (j > length) goto err; \
 	} while (0)
 
 	for (i = 0; i < answers; ++i) {
@@ -1592,6 +1593,8 @@ request_parse(u8 *packet, int length, struct evdns_server_port *port,
 		GET16(rdlen);
 		(void)ttl;
 		j += rdlen;
+		if (j > length)
+			goto err;
 		if (type == TYPE_OPT) {
 			/* In case of OPT pseudo-RR `class` field is treated
 			 * as a requestor's UDP payload size. */
